@@ -596,7 +596,8 @@ class World:
         spec = op["arg"]
         base, x = make_tensor(spec)
         leaf = x
-        if op.get("requires_grad"):
+        want_rg = bool(op.get("requires_grad")) and (x.is_floating_point() or x.is_complex())
+        if want_rg:
             x.requires_grad_(True)
             if op.get("nonleaf"):
                 x = leaf * 1.0        # the module sees a non-leaf tensor of an existing graph
@@ -621,7 +622,7 @@ class World:
         # I1: arguments untouched (also after a faulted call)
         if storage_bytes(base) != before:
             self.violation("I1-arg-mutated", rec, "input tensor storage changed by the call")
-        elif bool(x.requires_grad) != bool(op.get("requires_grad")) or leaf.grad is not None \
+        elif bool(x.requires_grad) != want_rg or leaf.grad is not None \
                 or tuple(x.shape) != shape0:
             self.violation("I1-arg-mutated", rec, "input tensor metadata (requires_grad / .grad / "
                            "shape) changed by the call")
